@@ -610,8 +610,8 @@ theorem drop_succeeds (ext : WExt) (s : WState) (hI : Inv s) (fa : Option Nat) (
   · exact Sat.pure rfl
   · apply Sat.bind
     apply Sat.mono (finalize_sat ext s hI fa d)
-    intro ⟨r, s1⟩ d1 _
-    exact Sat.pure rfl
+    intro ⟨r, s1⟩ d1 ⟨hI1, _⟩
+    exact Sat.mono (dropInner_sat' ext s1 hI1 fa d1) (fun _ _ h => h.2)
 
 /-- **`add_symlink` succeeds** between entries (the target fits 32 bits or `large_file` is set). -/
 theorem add_symlink_succeeds (ext : WExt) (name target : Bytes) (o : FileOptions) (s : WState) (hI : Inv s)
